@@ -246,26 +246,28 @@ theorem mkRows_cell {α : Type} (r1 : List α) (rs : List (List α)) (hw : ∀ r
 /-! ## special members: size and cells travel together -/
 
 /-- **special_members_refine** — every history of copy / move constructions, copy / move assignments (self-assignment
-    included), member and free swaps between objects behaves as the same history on whole grid *values*: copying
+    included), member and free swaps and default constructions between objects behaves as the same history on whole grid *values*: copying
     duplicates the value, moving transfers it (the source holds nothing until assigned again), swapping exchanges
     the objects.  A history is legal for the model exactly when it is for the specification. -/
-theorem special_members_refine {α : Type} (st : List (Slot α)) (prog : List RegOp) :
-    (regRun st prog).map (List.map absSlot) = specRun (st.map absSlot) prog :=
-  regRun_refines st prog
+theorem special_members_refine {α : Type} (n : Nat) (st : List (Slot α)) (prog : List RegOp) :
+    (regRun n st prog).map (List.map absSlot) = specRun n (st.map absSlot) prog :=
+  regRun_refines n st prog
 
 /-- consequently no history ever produces a grid whose size and cells do not belong together: every object that
-    is not moved-from holds one of the grids the history started with, unchanged. -/
-theorem special_members_preserve_values {α : Type} (st st' : List (Slot α)) (prog : List RegOp)
-    (h : regRun st prog = some st') (x : Slot α) (hx : x ∈ st') (hm : x.moved = false) :
-    ∃ y ∈ st, y.moved = false ∧ y.g = x.g := by
-  have h1 := special_members_refine st prog
+    is not moved-from holds one of the grids the history started with, unchanged, or the empty grid of a default
+    construction. -/
+theorem special_members_preserve_values {α : Type} (n : Nat) (st st' : List (Slot α)) (prog : List RegOp)
+    (h : regRun n st prog = some st') (x : Slot α) (hx : x ∈ st') (hm : x.moved = false) :
+    (∃ y ∈ st, y.moved = false ∧ y.g = x.g) ∨ x.g = Grid.empty n := by
+  have h1 := special_members_refine n st prog
   rw [h] at h1
   have hv : some x.g ∈ st'.map absSlot := List.mem_map.mpr ⟨x, hx, by simp [absSlot, hm]⟩
-  have := specRun_mem _ _ prog h1.symm x.g hv
-  obtain ⟨y, hy, he⟩ := List.mem_map.mp this
-  refine ⟨y, hy, ?_⟩
-  unfold absSlot at he
-  cases hmv : y.moved <;> simp_all
+  rcases specRun_mem n _ _ prog h1.symm x.g hv with this | this
+  · obtain ⟨y, hy, he⟩ := List.mem_map.mp this
+    refine Or.inl ⟨y, hy, ?_⟩
+    unfold absSlot at he
+    cases hmv : y.moved <;> simp_all
+  · exact Or.inr this
 
 /-! ## comparison -/
 
@@ -412,6 +414,22 @@ theorem fillRange_cell {α : Type} {g : Grid α} {v : Pos → α} (hg : Denotes 
       Denotes r (fun p => if InBox mn sp p then f p else v p) :=
   ⟨_, fillRange_denotes hg hl hne hin f, rfl, hg.1, hg.2.1, rfl⟩
 
+/-- **fill_reading_own_cells** — aliasing: a fill function that reads the grid being filled, at a cell `σ p` that is
+    the current one or comes later in storage order (a reference to one of the grid's own not yet written cells),
+    sees the original value: the result is `h p (v (σ p))` at every `p`, as if all reads happened before all writes.
+    (Reads of earlier cells see the new values — the model's `fillDep` is sequential, the correspondence op
+    `fillself` exercises first / last / previous / next / current cell.) -/
+theorem fill_reading_own_cells {α : Type} {g : Grid α} {v : Pos → α} (hg : Denotes g v) (σ : Pos → Pos)
+    (h : Pos → α → α)
+    (hσ : ∀ p, InRange g.size p → InRange g.size (σ p) ∧ offset p g.size ≤ offset (σ p) g.size) :
+    ∃ r, g.fillDep (fun g' p => (h p) <$> g'.getUnsafe (σ p)) = .ok r ∧ r.size = g.size ∧
+      Denotes r (fun p => h p (v (σ p))) := by
+  refine ⟨_, fillDep_denotes hg σ h ?_, rfl, hg.1, hg.2.1, rfl⟩
+  intro p hp
+  obtain ⟨h1, h2⟩ := hσ p hp
+  refine ⟨h1, ?_⟩
+  rwa [offset_eq_lin p g.size (inRange_length hp).symm, offset_eq_lin (σ p) g.size (inRange_length h1).symm] at h2
+
 /-- iterating a pos-ref range whose box lies inside the grid yields every position of the box with its cell. -/
 theorem posRefRange_cells {α : Type} {g : Grid α} {v : Pos → α} (hg : Denotes g v) {mn sp : Pos}
     (hl : mn.length = sp.length) (hne : mn ≠ []) (hin : ∀ p, InBox mn sp p → InRange g.size p) :
@@ -476,6 +494,12 @@ example : (⟨[2, 2], [1, 2, 3, 4]⟩ : Grid Int).interpolate [0, 0] [10, 20] (f
 -- read for x = 1 are 2,3 and 4,5 — 3 and 5 belong to the rows above; in a 2 x 2 grid the last read is out of bounds
 example : (⟨[2, 3], [1, 2, 3, 4, 5, 6]⟩ : Grid Int).interpolate [1, 0] [0, 0] (fun _ a b => 10 * a + b) = .ok 275 ∧
     (⟨[2, 2], [1, 2, 3, 4]⟩ : Grid Int).interpolate [1, 0] [0, 0] (fun _ a b => 10 * a + b) = .error .oob := by decide
+-- fill reading the next cell shifts the cells down by one (the last keeps its own); reading the previous cell
+-- propagates the first cell through the whole grid: the sequential semantics is observable
+example : (⟨[3], [10, 20, 30]⟩ : Grid Int).fillDep (fun g p => g.getUnsafe (match p with | [x] => [min (x + 1) 2] | q => q))
+      = .ok ⟨[3], [20, 30, 30]⟩ ∧
+    (⟨[3], [10, 20, 30]⟩ : Grid Int).fillDep (fun g p => g.getUnsafe (match p with | [x] => [max (x - 1) 0] | q => q))
+      = .ok ⟨[3], [10, 10, 10]⟩ := by decide
 -- a 2 x 2 grid and a grid with an empty row dimension
 example : (⟨[2, 2], [1, 2, 3, 4]⟩ : Grid Int).output toString = .ok "((1,2),(3,4))" ∧
     (⟨[0, 3], []⟩ : Grid Int).output toString = .ok "((),(),())" ∧ (⟨[3, 0], []⟩ : Grid Int).output toString = .ok "()" := by
@@ -488,7 +512,7 @@ example : (⟨[2, 3], [1, 2, 3, 4, 5, 6]⟩ : Grid Int).eq ⟨[3, 2], [1, 2, 3, 
 -- two empty grids of different sizes are different
 example : (⟨[0, 3], []⟩ : Grid Int).eq ⟨[3, 0], []⟩ = .ok false := by decide
 -- a legal history: move 1 into 0, swap 0 and 2, self-move-assign 2; the moved-from object keeps only its size
-example : regRun [⟨(⟨[1], [7]⟩ : Grid Int), false⟩, ⟨⟨[2], [8, 9]⟩, false⟩, ⟨⟨[0], []⟩, false⟩]
+example : regRun 1 [⟨(⟨[1], [7]⟩ : Grid Int), false⟩, ⟨⟨[2], [8, 9]⟩, false⟩, ⟨⟨[0], []⟩, false⟩]
       [.moveAssign 0 1, .swapMember 0 2, .moveAssign 2 2]
     = some [⟨⟨[0], []⟩, false⟩, ⟨⟨[2], []⟩, true⟩, ⟨⟨[2], [8, 9]⟩, false⟩] := by decide
 -- the literal fold also tests an index whose predecessor did not carry (current position outside the box)
